@@ -222,6 +222,28 @@ func importFields(c *Ctx, m string) {
 			if st == nil {
 				continue
 			}
+			// a record built by a constructor of the types package is looked into (a constructor that leaves a field out stores its zero value)
+			for i := 0; i < 3; i++ {
+				call, idx := st, -1
+				if st.Op == "res" && len(st.Args) == 1 {
+					call = st.Args[0]
+					fmt.Sscan(st.Name, &idx)
+				}
+				if call.Op != "call" || call.Callee == nil || reachesEffect(c, call.Callee, func(x ir.Effect) bool { return strings.HasPrefix(x.Kind, "Store") }) {
+					break
+				}
+				x := w.Inline(call)
+				if x == nil {
+					break
+				}
+				if idx >= 0 {
+					if x.Op != "tuple" || idx >= len(x.Args) {
+						break
+					}
+					x = x.Args[idx]
+				}
+				st = x
+			}
 			if st.Op != "struct" {
 				// the whole record is stored as imported (a literal copying every like-named field collapses to its source)
 				n++
